@@ -172,8 +172,9 @@ def flavour_records(tier, rng, wd):
                 steps.append(("line", gen.line() + "\n"))
         runs = []
         handler_jobs = []
+        shared = Interner()          # one token table for the three runs (tokens are compared across them)
         for mode in ("async", "ref", "sched"):
-            drv = Driver(ver, "async" if mode == "async" else "sync", Interner())
+            drv = Driver(ver, "async" if mode == "async" else "sync", shared)
             sched_rng = random.Random(i)
             out = []
             for st in steps:
